@@ -780,3 +780,56 @@ Proof.
   intros Hv Hnow Hds H. etransitivity; [exact (merc_observation_size ver base now fail ds m Hv Hnow Hds H)|].
   destruct Hv as [-> | [-> | ->]]; vm_compute; discriminate.
 Qed.
+
+(* ================= v1 end to end ================= *)
+Inductive sender1 := Correct1 (now : Z) (prev_nil : bool) (ds : ds1) | Faulty1 (b : bytes).
+Definition is_correct1 (s : sender1) : bool := match s with Correct1 _ _ _ => true | Faulty1 _ => false end.
+Definition sent1 (s : sender1) : option bytes :=
+  match s with
+  | Correct1 now pn ds => match merc_observe1 now pn false ds with Ok m => Some (merc_encode1 m) | _ => None end
+  | Faulty1 b => Some b
+  end.
+Definition received1_1 (s : sender1) : option (pao1 * bool) :=
+  match sent1 s with
+  | Some b => match merc_decode1 b with
+              | Some m => match parse1 m with Some p => Some (p, is_correct1 s) | None => None end
+              | None => None
+              end
+  | None => None
+  end.
+Definition received_v1 (ss : list sender1) : list (pao1 * bool) := MercuryReport.omap received1_1 ss.
+Definition senders1_ok (ss : list sender1) : Prop := forall now pn ds, In (Correct1 now pn ds) ss -> ds1_typed ds.
+
+Lemma received_v1_correct ss p : senders1_ok ss -> In (p, true) (received_v1 ss) ->
+  exists now pn ds, In (Correct1 now pn ds) ss /\ blocks_okb ds = true /\ p = expected_pao1 now pn ds.
+Proof.
+  intros Hok Hin. destruct (in_omap _ _ _ Hin) as (s & Hs & Hr). unfold received1_1 in Hr.
+  destruct s as [now pn ds|b]; cbn [sent1 is_correct1] in Hr.
+  - destruct (merc_observe1 now pn false ds) as [m| |] eqn:Eo; try discriminate.
+    destruct (correct_observation1_is_counted now pn false ds m (Hok now pn ds Hs) Eo) as (m' & Hd & Hp).
+    rewrite Hd, Hp in Hr. destruct (blocks_okb ds) eqn:Eb; [|discriminate]. inversion Hr. exists now, pn, ds. auto.
+  - destruct (merc_decode1 b) as [m|]; [|discriminate]. destruct (parse1 m); [|discriminate]. inversion Hr.
+Qed.
+
+Lemma pick1_valid (pv : bool) v x : (if pv then fld (price_val v) else (0, false)) = (x, true) -> v = Some x.
+Proof.
+  destruct pv; [|discriminate]. destruct v as [y|]; cbn [price_val fld]; [|discriminate].
+  destruct (in192b y); cbn [fld]; [|discriminate]. intros H; inversion H; reflexivity.
+Qed.
+
+Theorem consensus_benchmark1_between_data_sources ss f v : senders1_ok ss ->
+  let txs := map (fun pt => (q_bm (fst pt), snd pt)) (received_v1 ss) in
+  (faulty_count (tvalid txs) < honest_count (tvalid txs))%nat ->
+  consensus_price (map fst txs) f = Ok v ->
+  exists n1 p1 d1 n2 p2 d2 lo hi, In (Correct1 n1 p1 d1) ss /\ In (Correct1 n2 p2 d2) ss /\
+                            d1_bm d1 = Some lo /\ d1_bm d2 = Some hi /\ lo <= v <= hi.
+Proof.
+  intros Hok txs Hmaj Hc.
+  destruct (consensus_price_in_honest_range txs f v Hmaj Hc) as (lo & hi & Hlo & Hhi & Hr).
+  assert (Hfind : forall x, In ((x, true), true) txs -> exists n pn d, In (Correct1 n pn d) ss /\ d1_bm d = Some x).
+  { intros x Hx. subst txs. apply in_map_iff in Hx. destruct Hx as ([p t] & Hpt & Hin). cbn [fst snd] in Hpt.
+    inversion Hpt; subst t. destruct (received_v1_correct ss p Hok Hin) as (n & pn & d & Hs & _ & ->).
+    exists n, pn, d. split; [exact Hs|]. unfold expected_pao1 in H0. cbn [q_bm] in H0. exact (pick1_valid _ _ _ H0). }
+  destruct (Hfind lo Hlo) as (n1 & p1 & d1 & H1 & E1). destruct (Hfind hi Hhi) as (n2 & p2 & d2 & H2 & E2).
+  exists n1, p1, d1, n2, p2, d2, lo, hi. auto 10.
+Qed.
